@@ -93,7 +93,7 @@ func (encryptor *PostgreSQLTokenizeQuery) OnQuery(ctx context.Context, query pos
 			continue
 		}
 		placeholderIndex := paramRef.GetNumber() - 1
-		bindSettings[int(placeholderIndex)] = item.Setting
+		encryptor_base.SetPlaceholderSetting(bindSettings, int(placeholderIndex), item.Setting)
 	}
 
 	logrus.Debugln("PostgreSQLTokenizeQuery.OnQuery changed query")
